@@ -194,10 +194,49 @@ func ClassifyCheck(w gen.World, r m.Request, exp refsem.Outcome, allowed bool, e
 	if err == nil && !allowed && exp == refsem.Unknown && SwallowedNextToValidSibling(w, r) {
 		return SigSwallowedConditionError
 	}
-	if err == nil && !allowed && exp == refsem.True && UserAndWildcardOnSameObjectNotBothEffective(w, r) {
+	if err == nil && !allowed && (exp == refsem.True || exp == refsem.Unknown) && UserAndWildcardOnSameObjectNotBothEffective(w, r) {
 		return SigSortedReadDedup
 	}
+	if err == nil && allowed && exp == refsem.False && RecursiveRelationWithForeignUsersetTuple(w, r) {
+		return SigRecursiveIgnoresUsersetRelation
+	}
 	return ""
+}
+
+// SigRecursiveIgnoresUsersetRelation: for a relation T#r that allows its own
+// userset (T#r) and another userset of the same type (T#r2), the recursive
+// userset fast path is handed the userset tuples of EVERY restriction and its
+// mapper keeps only the userset's object, so a tuple T:a#r@T:b#r2 is followed
+// as if it were T:b#r: Check grants access nobody has (model group.r0:
+// [group#r0, group, group#r1]; group.r1:[user]; tuples group:0#r0@group:0,
+// group:1#r0@group:0#r1 -> Check(group:1#r0@group:0) = true).
+const SigRecursiveIgnoresUsersetRelation = "C01/recursive-userset-fast-path-ignores-userset-relation"
+
+// RecursiveRelationWithForeignUsersetTuple recognises that signature
+// structurally: some valid tuple T:a#r@T:b#r2 with r2 != r sits on a relation
+// whose restrictions include its own userset T#r.
+func RecursiveRelationWithForeignUsersetTuple(w gen.World, r m.Request) bool {
+	for _, t := range EvalTuples(w, r.Contextual) {
+		if m.UserKind(t.User) != "userset" {
+			continue
+		}
+		ot, _ := m.SplitObject(t.Object)
+		uo, ur := m.SplitUser(t.User)
+		ut, _ := m.SplitObject(uo)
+		if ut != ot || ur == t.Relation {
+			continue
+		}
+		rel := w.Model.Relation(ot, t.Relation)
+		if rel == nil {
+			continue
+		}
+		for _, re := range rel.Restr {
+			if re.Type == ot && re.Rel == t.Relation {
+				return true
+			}
+		}
+	}
+	return false
 }
 
 // SigSortedReadDedup: CombinedTupleReader.ReadStartingWithUser with sorted
